@@ -51,3 +51,4 @@ pub mod skel;
 // nonsymmetric cones (C14)
 // ---------------------------------------------------------------------------
 pub mod c14;
+pub mod c19;
